@@ -90,8 +90,8 @@ INVALID = ["eph_stealth", "eph_with_dir", "fs_with_key", "fs_single", "both_auth
 
 
 class Run(object):
-    def __init__(self, cfg, fault):
-        self.cfg, self.fault = cfg, fault
+    def __init__(self, cfg, fault, others=False):
+        self.cfg, self.fault, self.others = cfg, fault, others
         self.proto = TorControlProtocol()
         self.connect_sim(self.proto)
         self.authdir = None
@@ -110,6 +110,10 @@ class Run(object):
             d = TorConfig.from_protocol(self.proto)
             self.sim.pump()
             self.config = d.result
+            if others:
+                # the application follows descriptor events itself
+                self.proto.add_event_listener("HS_DESC", lambda *a: None)
+                self.sim.pump()
         self.hold_unsub = False     # from the creation reply on, SETEVENTS (giving up HS_DESC) waits for UnsubAck
         self.sim.hold = lambda line: (line.startswith("ADD_ONION") or line.startswith("SETCONF HiddenService") or
                                       (cfg.startswith("boot_") and line == "GETINFO config/names") or
@@ -251,7 +255,7 @@ class Run(object):
                     self.fired.append(failure.Failure(ex))
             elif a == "Listen":
                 self.ep = self.build()
-                d = self.ep.listen(Factory.forProtocol(Protocol))
+                d = self.listen_d = self.ep.listen(Factory.forProtocol(Protocol))
                 d.addBoth(self.fired.append)
                 self.sim.pump()
             elif a == "ConfigReady" and self.cfg.startswith("str_"):
@@ -315,6 +319,9 @@ class Run(object):
                     self.sim.event("650 HS_DESC FAILED %s UNKNOWN %s REASON=UPLOAD_REJECTED\r\n" % (other, d2))
                 else:
                     self.sim.event("650 HS_DESC UPLOADED %s UNKNOWN %s\r\n" % (other, d2))
+            elif a == "Cancel":
+                self.listen_d.cancel()
+                self.sim.pump()
             elif a == "Disconnect":
                 self.proto.connectionLost(failure.Failure(error.ConnectionLost("injected")))
             elif a == "StopListening":
@@ -360,6 +367,8 @@ class Run(object):
                     why = "config"
                 elif v.check(error.CannotListenError):
                     why = "bind"
+                elif v.check(defer.CancelledError):
+                    why = "cancel"
                 elif v.check(TorDisconnectError):
                     why = "disconnect"
                 elif v.check(TorProtocolError):
@@ -388,8 +397,10 @@ class Run(object):
             shutil.rmtree(self.authdir, True)
 
 
-def script_for(cfg, fault):
+def script_for(cfg, fault, others=False):
     s = list(SCRIPTS[fault])
+    if others and "UnsubAck" in s:
+        s.remove("UnsubAck")        # (nothing to acknowledge: the connection stays subscribed for the other listener)
     if cfg.startswith("tor_") and "ConfigReady" in s:
         s.remove("ConfigReady")
     return s
@@ -404,22 +415,23 @@ SCRIPTS = {
     "disconnect_create": ["Listen", "ConfigReady", "Disconnect"],
     "disconnect_wait": ["Listen", "ConfigReady", "CreateReply", "Disconnect"],
     "disconnect_unsub": ["Listen", "ConfigReady", "CreateReply", "WaitOver", "Disconnect"],
+    "cancel_wait": ["Listen", "ConfigReady", "CreateReply", "Cancel", "UnsubAck"],
     "invalid": ["Refuse"],
 }
 
 
-def replay(cfg, fault, noise=""):
+def replay(cfg, fault, noise="", others=False):
     """noise: "" | "up" | "fail": descriptor events of another service arrive while the creation command is
     outstanding and again during the descriptor wait"""
-    run = Run(cfg, fault)
+    run = Run(cfg, fault, others)
     steps = []
-    script = [dict(a=a) for a in script_for(cfg, fault)]
+    script = [dict(a=a) for a in script_for(cfg, fault, others)]
     if noise:
         out = []
         for i, e in enumerate(script):
             out.append(e)
             nxt = script[i + 1]["a"] if i + 1 < len(script) else ""
-            if nxt in ("CreateReply", "WaitOver", "UnsubAck") or (nxt == "Disconnect" and e["a"] != "Listen"):
+            if nxt in ("CreateReply", "WaitOver", "UnsubAck", "Cancel") or (nxt == "Disconnect" and e["a"] != "Listen"):
                 out.append(dict(a="Foreign", kind=noise))
         script = out
     for e in script:
@@ -428,7 +440,7 @@ def replay(cfg, fault, noise=""):
         if run.exc:
             break
     run.close()
-    return dict(steps=steps, cfg=cfg, fault=fault, noise=noise, cfgnow=cfg.startswith("tor_"), public=run.public, hostname=SID + ".onion", errors=run.errors[:2])
+    return dict(steps=steps, cfg=cfg, fault=fault, noise=noise, others=bool(others), cfgnow=cfg.startswith("tor_"), public=run.public, hostname=SID + ".onion", errors=run.errors[:2])
 
 
 class _Sink(object):
